@@ -54,6 +54,9 @@ TERMINALS = {
     "count": "    let l = {par}.count();\n",
     "reduce": "    let out = {par}.reduce(|a: D, b: D| D::with_pos(a.pos, a.val ^ b.val));\n    let l = out.is_some() as usize;\n    drop(out);\n",
     "find": "    let out = {par}.find(move |d: &D| {{ let r = d.val & 16 == 0; if r {{ model::matched(); }} r }});\n    let l = out.is_some() as usize;\n    drop(out);\n",
+    # find with the matching positions fixed (light: for fixed owner tables): every element matches, so with two
+    # workers both report a match and the reduction has to drop the loser
+    "find_all": "    let out = {par}.find(move |d: &D| {{ model::matched(); d.pos < 200 }});\n    let l = out.is_some() as usize;\n    drop(out);\n",
     "first": "    let out = {par}.first();\n    let l = out.is_some() as usize;\n    drop(out);\n",
     "for_each": "    {par}.for_each(|d: D| drop(d));\n    let l = 0usize;\n",
 }
@@ -110,6 +113,9 @@ def harnesses(tier, seed):
         hs.append(h("collect_into_split", "MF", 3, 2, 1, [1, 0, 1], (1, 1, 1)))
         hs.append(h("collect_into_split", "FMF", 2, 2, 1, [1, 0], (1, 1)))
         hs.append(h("collect_vec", "MF", 2, 1, 1, None, (1, 0)))
+        for ty in ("E", "M"):
+            hs.append(h("find_all", ty, 2, 2, 1, [1, 0], (1, 1)))
+            hs.append(h("find_all", ty, 2, 2, 1, [0, 1], (1, 1)))
         for term, ty, cv in (("find", "E", (1, 1, 1)), ("find", "M", (1, 1, 1)), ("count", "MF", (1, 0, 1)), ("reduce", "M", (1, 1, 1)),
                              ("first", "FM", (0, 1, 1)), ("for_each", "M", (1, 1, 1))):
             hs.append(h(term, ty, 3, 2, 1, "sym", cv))
